@@ -28,6 +28,8 @@ pub struct Event {
     pub thread: usize,
     pub label: &'static str,
     pub detail: i64,
+    /// microseconds since the controller was created
+    pub at_us: u64,
 }
 
 struct Inner {
@@ -37,6 +39,7 @@ struct Inner {
     open: bool,
     /// threads announced by their spawner that have not registered yet
     pending_spawns: u32,
+    t0: Instant,
 }
 
 pub struct Gates {
@@ -55,7 +58,7 @@ fn gettid() -> i32 {
 impl Gates {
     pub fn new() -> Arc<Gates> {
         Arc::new(Gates {
-            inner: Mutex::new(Inner { threads: Vec::new(), events: Vec::new(), open: false, pending_spawns: 0 }),
+            inner: Mutex::new(Inner { threads: Vec::new(), events: Vec::new(), open: false, pending_spawns: 0, t0: Instant::now() }),
             cv: Condvar::new(),
         })
     }
@@ -90,7 +93,8 @@ impl Gates {
             None => return,
         };
         let mut g = self.inner.lock().unwrap();
-        g.events.push(Event { thread: idx, label, detail });
+        let at_us = g.t0.elapsed().as_micros() as u64;
+        g.events.push(Event { thread: idx, label, detail, at_us });
         if g.open {
             return;
         }
